@@ -87,6 +87,15 @@ def interval(body, op, depth=0):
                         return (int(m.group(1)), int(m.group(1)))
                     break
                 al = op_local(nxt) if isinstance(nxt, dict) else None
+        if cs.fn in ("core::cmp::Ord::min", "core::cmp::min", "core::cmp::Ord::max", "core::cmp::max", "core::cmp::Ord::clamp") and not proj and len(cs.args) >= 2:
+            ivs = [interval(body, a_, depth + 1) or INT_RANGES.get(ty) for a_ in cs.args]
+            if all(iv_ is not None for iv_ in ivs):
+                if cs.fn.endswith("min"):
+                    return (min(ivs[0][0], ivs[1][0]), min(ivs[0][1], ivs[1][1]))
+                if cs.fn.endswith("max"):
+                    return (max(ivs[0][0], ivs[1][0]), max(ivs[0][1], ivs[1][1]))
+                if cs.fn.endswith("clamp") and len(ivs) == 3 and ivs[1][1] <= ivs[2][0]:
+                    return (ivs[1][0], ivs[2][1])
         if (cs.fn or "").rsplit("::", 1)[-1] == "len" and not proj and cs.args and (cs.fn or "").startswith(("core::slice::<impl [T]>::", "alloc::vec::Vec::", "alloc::string::String::", "core::str::<impl str>::")):
             # A10 (platform assumption, DESIGN section 3): the length of an in-memory byte/str buffer is below 2^57 — no target rustc
             # supports offers more than 57 bits of virtual address space, and std caps an allocation at isize::MAX bytes
@@ -559,6 +568,10 @@ def auto_discharge(body, src):
                     idx = c.get("int")
         if idx is not None and ln is not None and "int" in ln and idx < ln["int"]:
             return "A3 constant index %d < constant length %d" % (idx, ln["int"])
+        if idx is None and ln is not None and "int" in ln and len(ops) > 1:
+            iv_ = interval(body, ops[1])
+            if iv_ is not None and 0 <= iv_[0] and iv_[1] < ln["int"]:
+                return "A3 index within %s..%s < constant length %d" % (iv_[0], iv_[1], ln["int"])
         if idx is not None:
             # A5: dominated by `len == N` arm with N > idx
             for sbb in range(body.n):
@@ -636,13 +649,29 @@ def classify(body, src):
     r = auto_discharge(body, src)
     if r:
         return ("auto", r)
-    k = (body.key, src.kind, src.what)
+    ow = allow_owner(body.key, src.kind, src.what)
+    k = (ow, src.kind, src.what)
     if k in ALLOW:
         return ("allow", ALLOW[k][1], ALLOW[k][0])
-    kk = (body.key, "*", "*")
+    kk = (ow, "*", "*")
     if kk in ALLOW:
         return ("allow", ALLOW[kk][1], ALLOW[kk][0])
     return ("new", None)
+
+
+def allow_owner(key, kind, what):
+    """the allow-table is keyed by FUNCTION: a site that moved into a closure of that function (`x.map_or(0, |n| a / n)`) is still
+    that function's site — the nearest enclosing body that has an entry for this (kind, what) owns it"""
+    import re
+    k = key
+    for _ in range(4):
+        if (k, kind, what) in ALLOW or (k, "*", "*") in ALLOW:
+            return k
+        m = re.match(r"^(.*)::\{closure#\d+\}$", k)
+        if not m:
+            break
+        k = m.group(1)
+    return key
 
 
 def enumerate_reach(ctx, rid, entries, crates=("acmed", "acme_common", "tacd"), exclude=()):
@@ -667,8 +696,9 @@ def enumerate_reach(ctx, rid, entries, crates=("acmed", "acme_common", "tacd"), 
                 auto_n += 1
                 ctx.ok(rid, "%s %s in %s: %s" % (s.kind, s.what, short(k), c[1]))
             elif c[0] == "allow":
-                counts[(k, s.kind, s.what)] = counts.get((k, s.kind, s.what), 0) + 1
-                counts.setdefault(("__where__", k, s.kind, s.what), s.where())
+                ko = allow_owner(k, s.kind, s.what)
+                counts[(ko, s.kind, s.what)] = counts.get((ko, s.kind, s.what), 0) + 1
+                counts.setdefault(("__where__", ko, s.kind, s.what), s.where())
             else:
                 ctx.fail(rid, s.where(), "new panic source on this path: %s `%s` in %s (not discharged by A1-A5 and not in the allow-table)"
                          % (s.kind, s.what, k), [k, s.kind, s.what])
